@@ -15,8 +15,33 @@ def run(tier, rep, replay=None):
     drv = C.go_build_driver(w, "c01")
     tp = os.path.join(w, "t.ndjson")
     C.run([drv, "-scen", os.path.join(w, "scenarios.json"), "-terms", os.path.join(w, "terms.json"), "-out", tp, "-seed", str(C.SEED),
-           "-keys", "6" if thorough else "2", "-frodobits", "0" if thorough else "500", "-multi", "200" if thorough else "24"],
+           "-keys", "6" if thorough else "2", "-frodobits", "0" if thorough else "500", "-multi", "200" if thorough else "24",
+           "-hashjobs", os.path.join(w, "hashjobs.json")],
           timeout=3400, what="c01 driver")
+    # ---- TLC itself recomputes the X-Wing key expansion and combiner (honest and implicitly rejected) and FrodoKEM's rejection secret
+    hj = json.load(open(os.path.join(w, "hashjobs.json")))
+    for f in hj["facts"] or []:
+        if not f["ok"]:
+            rep.violation("kem:%s" % f["name"], {"observed": f, "explain": "X-Wing / FrodoKEM decomposition does not hold"})
+    jobs = hj["jobs"] or []
+    fals = copy.deepcopy([j for j in jobs if j["name"].endswith("combiner-honest")][0])
+    fals["want"][0] ^= 1
+    d = os.path.join(w, "hj")
+    os.makedirs(d, exist_ok=True)
+    C.stage_specs(d, "C01")
+    json.dump(jobs + [fals], open(os.path.join(d, "jobs.json"), "w"))
+    rh = C.tlc(d, "HashJobs", "HashJobs.cfg", workers=1, heap="3g", timeout=1700, stack="256m")
+    vp = os.path.join(d, "verdict.json")
+    if not rh.ok or not os.path.exists(vp):
+        raise C.Infra("HashJobs failed:\n%s" % rh.tail(40))
+    v = json.load(open(vp))
+    hbad = {int(x) - 1 for x in (v["bad"] if isinstance(v["bad"], list) else list(v["bad"].values()))}
+    if v["consumed"] != len(jobs) + 1 or len(jobs) not in hbad:
+        raise C.Infra("HashJobs did not consume every job / accepted a falsified combiner output: %s" % v)
+    for i in sorted(hbad - {len(jobs)}):
+        rep.violation("kem:%s" % jobs[i]["name"], {"job": {k: (bytes(x).hex() if isinstance(x, list) else x) for k, x in jobs[i].items()},
+                                                  "explain": "the library's value is not what TLC computes from FIPS 202 for this input (HashJobs.tla): X-Wing's SHAKE256 key expansion / SHA3-256 combiner, FrodoKEM's SHAKE128(c || s)"})
+    rep.add(tlc_recomputed_hashes=sorted(j["name"] for j in jobs), tlc_hash_states=rh.distinct)
     lines = C.read_ndjson(tp)
     bad, r = C.validate_lines(w, "Trace_KemCompose", "Lines.cfg", lines)
     for i in bad:
@@ -42,13 +67,13 @@ def run(tier, rep, replay=None):
             trace_states=r.distinct)
     for l in [x for x in lines if x["ev"] == "basic"][:1] + [x for x in lines if x["ev"] == "alter"][:4]:
         rep.sample(l)
-    rep.assumptions += ["x/crypto SHA-3/SHAKE and math/big X25519 interpret the rejection / combiner terms",
+    rep.assumptions += ["x/crypto SHA-3/SHAKE and math/big X25519 interpret the rejection / combiner terms at volume; TLC recomputes X-Wing's key expansion and combiner (honest, implicitly rejected) and one FrodoKEM rejection secret per run with HashJobs.tla",
                         "private-key layouts (z = last 32 bytes of an ML-KEM/Kyber key, s = first 16 bytes of a FrodoKEM-640 key, X-Wing key = 32-byte seed) are those of the standards",
                         "byte-exactness of the honest secret is C03's subject; here honest/rejection relations"]
 
 
 MANIFEST = {
- "text": "KemCompose.tla models every KEM circl offers (21 schemes) as a composition of leaves (FO with implicit rejection, raw DH shares, RFC 9180 DHKEM, X-Wing) and derives, per ciphertext region and alteration kind, the class of outcome decapsulation may have; TLC checks on arbitrary compositions that the honest secret is possible only without alteration or on the masked bit of a raw X25519 share and that FO-only compositions never error. The driver runs EVERY single-bit flip of every ciphertext (sampled for FrodoKEM in quick), multi-byte edits, all-zero / all-0xFF / other-key ciphertexts on 2 key pairs per scheme (incl. an all-0xFF seed), checks determinism, sizes, marshal round trips, and compares implicit-rejection secrets byte for byte with SHAKE256(z||c), SHAKE256(z||SHA3-256(c)), SHAKE128(c||s) and the X-Wing combiner evaluated from the TLA+ terms; TLC judges the aggregated record and also that the model registry equals circl's.",
+ "text": "KemCompose.tla models every KEM circl offers (21 schemes) as a composition of leaves (FO with implicit rejection, raw DH shares, RFC 9180 DHKEM, X-Wing) and derives, per ciphertext region and alteration kind, the class of outcome decapsulation may have; TLC checks on arbitrary compositions that the honest secret is possible only without alteration or on the masked bit of a raw X25519 share and that FO-only compositions never error. The driver runs EVERY single-bit flip of every ciphertext (sampled for FrodoKEM in quick), multi-byte edits, all-zero / all-0xFF / other-key ciphertexts on 2 key pairs per scheme (incl. an all-0xFF seed), checks determinism, sizes, marshal round trips, and compares implicit-rejection secrets byte for byte with SHAKE256(z||c), SHAKE256(z||SHA3-256(c)), SHAKE128(c||s) and the X-Wing combiner evaluated from the TLA+ terms; TLC judges the aggregated record and also that the model registry equals circl's. X-Wing is also decomposed into the library's own ML-KEM-768 and X25519 (C03, C06) so that TLC recomputes, with the executable FIPS 202 of HashJobs.tla, its SHAKE256 key expansion and its SHA3-256 combiner for an honest and an implicitly rejected encapsulation, and FrodoKEM's SHAKE128(c || s) rejection secret.",
  "note": "Seeds are seeded random plus one edge seed; the honest secret's byte-exactness is C03. FrodoKEM flips sampled in quick (500 of 77 760 per key), complete in thorough.",
  "technique": "TLC model check of KEM composition algebra + TLC-emitted scenario table and rejection terms replayed on real KEMs + TLC trace judgement",
 }
